@@ -24,7 +24,8 @@ ASSUMPTIONS = [
     'elementwise IEEE operations: binned and dense paths must agree bit for bit',
 ]
 LAYOUTS = ['all_empty', 'some_empty', 'one_huge', '1d', '2d', 'gaps']
-TARGETS = [('tof', 'wavelength'), ('tof', 'energy'), ('tof', 'dspacing'), ('tof', 'Q'),
+HKL_TARGETS = ['Qx', 'Qz', 'Q_vec', 'hkl_vec', 'h', 'k', 'l']
+TARGETS = [('tof', 'hkl:'), ('wavelength', 'hkl:'), ('tof', 'wavelength'), ('tof', 'energy'), ('tof', 'dspacing'), ('tof', 'Q'),
            ('tof', 'energy_transfer:direct'), ('tof', 'energy_transfer:indirect'),
            ('wavelength', 'energy'), ('wavelength', 'dspacing'), ('wavelength', 'Q')]
 
@@ -302,9 +303,17 @@ class GravityMonitor:
                                 for c in ('end',))) != fp(tuple(np.asarray(w.bins.constituents[c].values).ravel() - np.asarray(w.bins.constituents['begin'].values).ravel()
                                                                 for c in ('end',))):
                         ctx.violation('membership_changed', f'{name}[{key}]: number of events per bin changed', case)
-                    if not same_bits(got, want):
+                    # angles in [-pi, pi]: bit-identical except when the beams vary per pixel, where scipp's
+                    # binned and dense evaluation orders differ by one rounding (measured 1 ulp); bound 4 eps
+                    eps = np.finfo(got.dtype).eps if got.dtype.kind == 'f' else 0.0
+                    with np.errstate(invalid='ignore'):
+                        dev = np.abs(got.astype(np.float64) - want.astype(np.float64))
+                    both_nan = np.isnan(got) & np.isnan(want)
+                    worst = float(np.max(np.where(both_nan, 0.0, dev))) if got.size else 0.0
+                    ctx.dev(f'gravity twin {key}: |binned - dense| / eps', worst / eps if eps else worst)
+                    if got.dtype != want.dtype or got.shape != want.shape or not (worst <= 4 * eps):
                         ctx.violation('event_value', f'{name}[{key}]: event values differ from the dense formula for '
-                                      'the same event and pixel', case, part='gravity')
+                                      f'the same event and pixel by {worst:.3g}', case, part='gravity')
             except Exception:  # noqa: BLE001
                 ctx.oracle_error('C06 gravity monitor')
         return on_return
@@ -326,8 +335,17 @@ def gen_gravity(rng, ctx):
                 data=sc.array(dims=['event'], values=rng.uniform(0.5, 20.0, size=int(end[-1]) if npix else 0) * wf,
                               unit=wunit, dtype=dt))
     tilt = [0.0, 0.0, 0.2][rng.integers(0, 3)]
+    per_pixel_incident = npix > 1 and rng.random() < 0.35
+    if per_pixel_incident:
+        # e.g. a sample-height scan: some beams exactly perpendicular to gravity, others inclined
+        tl = np.where(rng.random(npix) < 0.5, 0.0, rng.uniform(1e-3, 0.2))
+        tl[0], tl[-1] = 0.0, float(rng.uniform(1e-3, 0.2))
+        inc = sc.vectors(dims=['pixel'], values=np.stack([np.zeros(npix), 10 * np.sin(tl), 10 * np.cos(tl)], axis=1) * bf,
+                         unit=bunit)
+        tilt = float(np.max(tl))
+        ctx.hit('binned gravity with per-pixel incident beams')
     kw = {
-        'incident_beam': sc.vector(np.array([0.0, 10 * np.sin(tilt), 10 * np.cos(tilt)]) * bf, unit=bunit),
+        'incident_beam': inc if per_pixel_incident else sc.vector(np.array([0.0, 10 * np.sin(tilt), 10 * np.cos(tilt)]) * bf, unit=bunit),
         'scattered_beam': sc.vectors(dims=['pixel'], values=(rng.normal(size=(npix, 3)) + [0.3, 0.2, 3]) * bf, unit=bunit),
         'wavelength': w,
         'gravity': sc.vector([0.0, -9.80665, 0.0], unit='m/s^2'),
@@ -339,7 +357,11 @@ def gen_gravity(rng, ctx):
 def gen(rng, ctx):
     origin, tgt = TARGETS[rng.integers(0, len(TARGETS))]
     mode = None
-    if ':' in tgt:
+    hkl = False
+    if tgt == 'hkl:':
+        tgt, hkl = HKL_TARGETS[rng.integers(0, len(HKL_TARGETS))], True
+        ctx.hit('hkl-family target')
+    elif ':' in tgt:
         tgt, mode = tgt.split(':')
     layout = LAYOUTS[rng.integers(0, len(LAYOUTS))]
     evdt = ['float64', 'float32', 'int64'][rng.integers(0, 3)] if origin == 'tof' else ['float64', 'float32'][rng.integers(0, 2)]
@@ -381,7 +403,7 @@ def gen(rng, ctx):
                      end=sc.array(dims=dims, values=end.reshape(shape), unit=None, dtype='int64'),
                      dim='event', data=tab)
     coords = {'unrelated_px': sc.array(dims=['pixel'], values=rng.random(npix), unit='K')}
-    geom_kind = 'reduced' if rng.random() < 0.6 else 'positions'
+    geom_kind = 'positions' if hkl else ('reduced' if rng.random() < 0.6 else 'positions')
     lunit = ['m', 'mm'][rng.integers(0, 2)]
     lf = 1.0 if lunit == 'm' else 1000.0
     if geom_kind == 'reduced':
@@ -393,6 +415,10 @@ def gen(rng, ctx):
         coords['source_position'] = sc.vector([0, 0, -rng.uniform(5, 50) * lf], unit=lunit)
         coords['sample_position'] = sc.vector([0, 0, 0.0], unit=lunit)
         coords['position'] = sc.vectors(dims=['pixel'], values=rng.normal(size=(npix, 3)) * lf * 2 + [0, 0.3 * lf, lf], unit=lunit)
+    if hkl:
+        th = rng.uniform(0, np.pi)
+        coords['sample_rotation'] = sc.spatial.rotation(value=[0.0, np.sin(th / 2), 0.0, np.cos(th / 2)])
+        coords['ub_matrix'] = sc.spatial.linear_transform(value=np.triu(rng.uniform(0.5, 2.0, size=(3, 3))), unit='1/angstrom')
     if mode == 'direct':
         coords['incident_energy'] = sc.scalar(rng.uniform(5, 500), unit='meV', dtype='float32' if evdt == 'float32' and rng.random() < 0.5 else 'float64')
     elif mode == 'indirect':
@@ -419,7 +445,8 @@ def plan(tier, seed):
 def requirements(tier):
     return {'events': {'convert(binned)': 200, 'twin': 200, 'edges': 10, 'gravity_twin': 50, 'pixel_twin': 500, 'nan_rule': 10},
             'forced': ['layout:' + x for x in LAYOUTS] + ['evdtype:float32', 'evdtype:int64', 'mode:direct', 'mode:indirect']
-            + ['gravity wavelength unit:' + u for u in ('angstrom', 'nm', 'm')],
+            + ['gravity wavelength unit:' + u for u in ('angstrom', 'nm', 'm')]
+            + ['binned gravity with per-pixel incident beams', 'hkl-family target'],
             'counters': {'events_compared': 10000}}
 
 
